@@ -1,35 +1,36 @@
 /-
-  pgmodel — the compiled model/spec driver.
+  pgmodel-<area> — the compiled model/spec drivers (one executable per area, all with this interface).
     pgmodel gen <family> <seed> <start> <count> <size>   one case line per index
     pgmodel eval                                          stdin: "<family>\t<args…>" → model output per line
     pgmodel list                                          family names and sizes of their fixed prefixes
 -/
-import Driver.Registry
-open Driver
+import Driver.Family
+namespace Driver
 
-def findFam (n : String) : Option Family := families.find? (·.name == n)
+def findFam (families : List Family) (n : String) : Option Family := families.find? (·.name == n)
 
-partial def evalLoop (h : IO.FS.Stream) (out : IO.FS.Stream) : IO Unit := do
+partial def evalLoop (families : List Family) (h : IO.FS.Stream) (out : IO.FS.Stream) : IO Unit := do
   let line ← h.getLine
   if line.isEmpty then return ()
   let l := (line.dropEndWhile (fun c => c == '\n' || c == '\r')).toString
   match l.splitOn "\t" with
   | fam :: args =>
-    match findFam fam with
+    match findFam families fam with
     | some f => out.putStrLn (f.eval args)
     | none => out.putStrLn "bad-family"
   | _ => out.putStrLn "bad-line"
   out.flush
-  evalLoop h out
+  evalLoop families h out
 
-def main (args : List String) : IO UInt32 := do
+/-- entry point shared by every area driver -/
+def run (families : List Family) (args : List String) : IO UInt32 := do
   let out ← IO.getStdout
   match args with
   | ["list"] =>
     for f in families do out.putStrLn s!"{f.name}\t{f.fixed}"
     return 0
   | ["gen", fam, seed, start, count, size] =>
-    match findFam fam with
+    match findFam families fam with
     | none => IO.eprintln s!"unknown family {fam}"; return 2
     | some f =>
       let seed := seed.toNat!; let start := start.toNat!; let count := count.toNat!; let size := size.toNat!
@@ -37,8 +38,10 @@ def main (args : List String) : IO UInt32 := do
         out.putStrLn ((f.gen seed i size).line fam i)
       return 0
   | ["eval"] =>
-    evalLoop (← IO.getStdin) out
+    evalLoop families (← IO.getStdin) out
     return 0
   | _ =>
     IO.eprintln "usage: pgmodel gen <family> <seed> <start> <count> <size> | eval | list"
     return 2
+
+end Driver
